@@ -224,5 +224,10 @@ Definition check_tp (c : tcase) : verdict :=
      v_prop := tobs_eqb (t_direct c) (t_tp c);
      v_guards := guards [(10%Z, negb (t_fixed_F10 c) && g_F10 L)] |}.
 
+(** /repo since fix: f446e16 — C13-F10 is repaired: the repaired variant is expected whatever the sentinel
+    says (a regression is an ordinary VIOLATION) *)
+Definition check_tp_repo (c : tcase) : verdict :=
+  check_tp {| t_fixed_F10 := true; t_L := t_L c; t_direct := t_direct c; t_tp := t_tp c |}.
+
 Definition tob s m sc h rp q := {| to_status := s; to_parts := (m, sc, h, rp, q) |}.
 Definition tcs fx L d t := {| t_fixed_F10 := fx; t_L := L; t_direct := d; t_tp := t |}.
